@@ -117,6 +117,70 @@ def obligations(r, tier, seed):
             obs.append(Ob("C03/internal/BaseEdge.calc_chi2_gradient_hessian/%s" % "-".join(types), cgh, tier="internal",
                           funcs=["graphslam.edge.base_edge.BaseEdge.calc_chi2_gradient_hessian"]))
 
+    # ---- internal: _Chi2GradientHessian.update -- the step of the left fold over the edge list, for an ARBITRARY prior state.
+    #      Abstract view of the accumulator: (chi2, G: index -> vector, Hu: (i <= j) -> block).  For every incoming contribution
+    #      of arity 1..3 with its gradient indices in increasing, decreasing and mixed order, and every prior state in which
+    #      each touched key is absent or holds a symbolic block (plus sentinel keys that must not change):
+    #          view' = view + incoming   (Hu[(min,max)] += contrib, transposed when the edge reports (max,min)),
+    #      all keys satisfy i <= j, the object returned is the accumulator.  With this contract the accumulated view equals the
+    #      sum over all edges by induction on the edge list, whatever its length (the induction itself is not mechanised).
+    dims_of = {3: 2, 10: 3, 20: 1}
+    orders = [(3,), (3, 10), (10, 3), (3, 10, 20), (20, 3, 10), (10, 20, 3), (20, 10, 3)]
+    for order in orders:
+        for prior in ("empty", "all-present", "some-present"):
+            def upd(k, order=order, prior=prior):
+                r_ = k.r
+                np = k.np
+                acc = r_.graph._Chi2GradientHessian()
+                c0 = k.real("c0")
+                acc.chi2 = c0
+                keys_g = sorted(set(order))
+                keys_h = sorted({(min(a, b), max(a, b)) for a in order for b in order})
+                view_g, view_h = {}, {}
+                n = 0
+                for idx in keys_g:
+                    n += 1
+                    if prior == "all-present" or (prior == "some-present" and n % 2):
+                        view_g[idx] = k.vec("G%d_" % idx, dims_of[idx])
+                        acc.gradient[idx] = np.array(view_g[idx])
+                for (a, b) in keys_h:
+                    n += 1
+                    if prior == "all-present" or (prior == "some-present" and n % 2):
+                        view_h[(a, b)] = k.matrix("H%d_%d" % (a, b), dims_of[a], dims_of[b])
+                        acc.hessian[(a, b)] = np.array(view_h[(a, b)])
+                # sentinels: untouched keys
+                sg, sh = k.vec("SG", 2), k.matrix("SH", 2, 2)
+                acc.gradient[77] = np.array(sg)
+                acc.hessian[(77, 99)] = np.array(sh)
+                chi2_in = k.real("cin")
+                g_in = [(idx, k.vec("g%d_%d_" % (i, idx), dims_of[idx])) for i, idx in enumerate(order)]
+                h_in = [((order[i], order[j]), k.matrix("h%d_%d" % (i, j), dims_of[order[i]], dims_of[order[j]]))
+                        for i in range(len(order)) for j in range(i, len(order))]
+                incoming = (chi2_in, [(i, np.array(v)) for i, v in g_in], [(kk, np.array(m)) for kk, m in h_in])
+                ret = r_.graph._Chi2GradientHessian.update(acc, incoming)
+                k.check(ret is acc, "update returns the accumulator")
+                k.eq(acc.chi2, c0 + chi2_in, "chi2' == chi2 + incoming chi2")
+                want_g = {idx: (np.array(v) if v is not None else None) for idx, v in view_g.items()}
+                for idx, v in g_in:
+                    want_g[idx] = np.array(v) if want_g.get(idx) is None else want_g[idx] + np.array(v)
+                want_h = {kk: np.array(v) for kk, v in view_h.items()}
+                for (a, b), m in h_in:
+                    key, blk = ((a, b), np.array(m)) if a <= b else ((b, a), np.transpose(np.array(m)))
+                    want_h[key] = blk if key not in want_h else want_h[key] + blk
+                k.check(sorted(acc.gradient.keys()) == sorted(list(want_g) + [77]), "gradient keys == old keys + incoming keys", sorted(acc.gradient.keys()))
+                k.check(sorted(acc.hessian.keys()) == sorted(list(want_h) + [(77, 99)]), "Hessian keys == old keys + normalised incoming keys", sorted(acc.hessian.keys()))
+                k.check(all(a <= b for a, b in acc.hessian.keys()), "every Hessian key satisfies i <= j")
+                for idx, v in want_g.items():
+                    if idx in acc.gradient:
+                        k.eq(acc.gradient[idx], v, "G'[%d] == G[%d] + incoming" % (idx, idx))
+                for kk, v in want_h.items():
+                    if kk in acc.hessian:
+                        k.eq(acc.hessian[kk], v, "Hu'[%r] == Hu[%r] + incoming (transposed when reported high-first)" % (kk, kk))
+                k.same(acc.gradient[77], sg, "untouched gradient key unchanged")
+                k.same(acc.hessian[(77, 99)], sh, "untouched Hessian key unchanged")
+            obs.append(Ob("C03/internal/_Chi2GradientHessian.update/order=%s/prior=%s" % ("-".join(map(str, order)), prior), upd, tier="internal",
+                          funcs=["graphslam.graph._Chi2GradientHessian.update", "graphslam.graph._Chi2GradientHessian.DefaultArray.__iadd__"]))
+
     # ---- internal: entry-wise gradient / Hessian of Graph._calc_chi2_gradient_hessian against the spec
     for shape in [s for s in graphs.family(tier, seed, well_posed_only=True) if s["pattern"] in ("par-ba-ab", "star-rev", "ternary-perm", "unary")][:24]:
         def dense(k, shape=shape):
